@@ -28,6 +28,12 @@ exit 1 came with a concrete replay case; correspondence also broke (5 of 5 recor
   M11 on_leave resolves on transport loss                exit 1  polarity:success-without-cause
   H1  can_reconnect as `not >=`, _can_reconnect as any() exit 0
   H2  clamp written with min()                           exit 0
+
+Repaired in /repo since (the inputs stay in the run as regression cases, tag `regress:`; against the unrepaired
+code they are reported as violations under the same keys):
+  giveup:/round-robin:no-main:budget-not-reset-after-join   on_join (transport.reset()) is registered on every session
+  stop:attempt-after-stop:connecting / :joined-then-lost    transport_check ends the loop once _stopping is set
+Open: polarity:main-raised-not-error (a raising main is retried; design decision, see known_findings.d/C14.jsonl).
 """
 import json
 import os
@@ -58,13 +64,12 @@ MANIFEST_ENTRY = {
     "technique": "Lean 4 theorems over arbitrary event histories (induction on the history, invariants relating the "
                  "model to Spec monitors) + differential tie of the model to the real Twisted and asyncio Component "
                  "on virtual clocks + Spec monitors judging the logs observed on the real code",
-    "text": "Proved for all histories, transport lists, retry parameters and jitter samples: retry budget since the last "
-            "join, no attempt after a fatal error, first attempt immediate, delay <= max_retry_delay, the loop is never "
-            "idle with start() open, start() completes at most once, listeners bubble; round-robin order, give-up only "
-            "when exhausted and completion polarity are proved for components with a main (resp. without raising mains) "
-            "and refuted on concrete witnesses otherwise. The witnesses replay on the real code (known findings: budget "
-            "not reset on join without main; a raising main is retried instead of failing start(); stop() during a "
-            "connect or followed by transport loss does not stop the reconnect loop).",
+    "text": "Proved for all histories, transport lists, retry parameters and jitter samples, with or without main: retry "
+            "budget since the last join, no attempt after a fatal error, round-robin order, give-up only when exhausted, "
+            "first attempt immediate, delay <= max_retry_delay, the loop is never idle with start() open, start() "
+            "completes at most once, no attempt after stop() from any position, listeners bubble. Completion polarity "
+            "is proved for histories without a raising main and refuted on a concrete witness otherwise; the witness "
+            "replays on the real code (known finding: a raising main is retried instead of failing start()).",
     "note": "Trusted: Lean kernel; the model mirrors the code (checked by the differential run on outcome scripts of "
             "length <= 8 x 1-3 transports of both kinds x max_retries x delay grids x classifier x stop positions); "
             "fake endpoints and a scripted router; txaio/reactor scheduling. Not covered: real sockets, DNS, TLS.",
@@ -129,7 +134,7 @@ def canon_log(case, out):
 
 def judge_line(case, out):
     trs = ";".join("%d,%s" % (t["max_retries"], q(t["max_delay"])) for t in case["transports"])
-    return "comp.judge %s 1 %s %d %s" % (case["listeners"] or "-", trs, 1 if out["idle"] else 0,
+    return "comp.judge %s %s %d %s" % (case["listeners"] or "-", trs, 1 if out["idle"] else 0,
                                          ",".join(canon_log(case, out)) or "-")
 
 
@@ -152,12 +157,14 @@ LISTENERS = ["cjrld", "", "jl", "crd", "r", "cjrld", "cjrld"]
 
 
 S_, D_, X_ = ["start"], ["delay"], ["stop"]
-WITNESSES = [  # (expected key, max_retries per transport, main, events)  == theorems *_fails_* / *_continues / *_reconnects
+WITNESSES = [  # (expected key, max_retries per transport, main, events)  == theorem main_raises_not_error
+    ("polarity:main-raised-not-error", [1, 1], True, [S_, ["out", "mraise", 0]]),
+]
+REGRESSIONS = [  # repaired defects: same inputs as the `example`s in Proofs/C14.lean; nothing may be reported on them
     ("giveup:no-main:budget-not-reset-after-join", [1], False,
      [S_, ["out", "refused", 0], D_, ["out", "jlost", 0], D_]),
     ("round-robin:no-main:budget-not-reset-after-join", [0, -1], False,
      [S_, ["out", "jlost", 0], ["out", "refused", 0], D_]),
-    ("polarity:main-raised-not-error", [1, 1], True, [S_, ["out", "mraise", 0]]),
     ("stop:attempt-after-stop:connecting", [1], False, [S_, X_, ["out", "refused", 0], D_]),
     ("stop:attempt-after-stop:joined-then-lost", [1], False, [S_, ["out", "joined", 0], X_, ["sess", "lost", 0], D_]),
 ]
@@ -215,11 +222,13 @@ def gen_cases(ctx):
                 c["real_random"] = real_random
             cases.append(c)
 
-    # (w) the witnesses of the negated clauses in Proofs/C14.lean (same inputs as the Lean theorems)
+    # (w) the witness of the negated clause in Proofs/C14.lean and the inputs of the repaired defects
     def T1(mr):
         return {"kind": "websocket", "max_retries": mr, "initial": 1.0, "growth": 2.0, "jitter": 0, "max_delay": 8.0}
     for name, trs, main, evs in WITNESSES:
         add([T1(m) for m in trs], main, "none", "cjrld", evs, tag="witness:" + name)
+    for name, trs, main, evs in REGRESSIONS:
+        add([T1(m) for m in trs], main, "none", "cjrld", evs, tag="regress:" + name)
 
     # (a) exhaustive: every outcome sequence of length <= L over a few configurations, every stop position
     L = 2 if quick else 3
@@ -544,5 +553,5 @@ def run(ctx):
             print("  model:         ", m)
             print("  spec on impl:  ", v)
     res.notes.append("errors that left the reactor/loop during the runs (not compared): stop() after completion raises "
-                     "AttributeError; late writes to the completed future raise inside callbacks")
+                     "AttributeError; session_done writing to the completed future after stop() raises inside a callback")
     return res
